@@ -42,6 +42,7 @@ def build(repo="/repo", release=False):
 class Rac:
     def __init__(self, repo="/repo", release=False):
         self.bin = build(repo, release)
+        self.repo = repo
         env = dict(os.environ, HOME="/var/tmp", XDG_DATA_HOME="/var/tmp/anything-verif-data")
         self.p = subprocess.Popen([self.bin], stdin=subprocess.PIPE, stdout=subprocess.PIPE, stderr=subprocess.DEVNULL, text=True, bufsize=1, env=env)
         pong = self.ask({"cmd": "ping"})
